@@ -409,7 +409,11 @@ func checkTopicFilter(p *Program, r *Result, g *goLayouts, fc *formCtx, fd *ast.
 			return true
 		}
 		found = true
-		if f.String() == want {
+		wantF := or(atom("len(it.topics)", "==", "0"), &bform{op: "opaque", text: "it.topics[Channel.Topic]"})
+		notWant := &bform{op: "not", kids: []*bform{wantF}}
+		same := func(a, b *bform) bool { return counterexample(a, b, nil) == "" && counterexample(b, a, nil) == "" }
+		// the admission itself, or its negation in front of a skip
+		if f.String() == want || same(f, wantF) || same(f, notWant) {
 			r.held("C04.e", fname, "topic filter", p.pos(iff.Pos()), f.String())
 		} else {
 			r.violated("C04.e", fname, "topic filter", p.pos(iff.Pos()), "channel admission is "+f.String()+", expected "+want)
